@@ -124,7 +124,28 @@ def _mk_add_fields(label, given):
             out.append(("column.%s.is.%s" % (k, "the.given.one" if k in st.new else "the.operand's"), got is not None and conc(I(got) == I(v)) is True))
         return out
 
+    def concretize(model, ctx, st, oid):
+        """a real two-column table and real given columns on the real add_fields (public API)"""
+        import numpy as np
+        from bionumpy.bnpdataclass import bnpdataclass
+
+        @bnpdataclass
+        class T:
+            a: int
+            b: int
+        t = T([1, 2, 3], [4, 5, 6])
+        new = {k: np.array([10 * (j + 1) + n for n in range(3)]) for j, k in enumerate(given)}
+        try:
+            r = t.add_fields(dict(new))
+            got = {k: np.asarray(getattr(r, k)).tolist() for k in ("a", "b", "c") if hasattr(r, k)}
+        except Exception as e:
+            return {"reproduced": True, "input": {"table": "a=[1,2,3] b=[4,5,6]", "given": {k: v.tolist() for k, v in new.items()}}, "exception": repr(e)}
+        want = {"a": [1, 2, 3], "b": [4, 5, 6]}
+        want.update({k: v.tolist() for k, v in new.items()})
+        return {"reproduced": got != want, "input": {"table": "a=[1,2,3] b=[4,5,6]", "given": {k: v.tolist() for k, v in new.items()}}, "columns": got, "expected": want}
+
     return Contract("C19.BNPDataClass.add_fields[%s]" % label, target=lambda: _cls().add_fields, setup=setup, requires=lambda ctx, st: [], ensures=ens,
+                    concretize=concretize,
                     callees={"bionumpy.bnpdataclass.bnpdataclass._extract_field_types": lambda ip, args, kwargs, lineno: {k: Opaque("type") for k in args[0]},
                              "bionumpy.bnpdataclass.bnpdataclass.BNPDataClass.extend": lambda ip, args, kwargs, lineno: _NewClass(_af_holder["st"])},
                     dropped=["TypeError message"],
